@@ -109,15 +109,18 @@ def q_from_axes(a1, a2):
 # ------------------------------------------------------------------------------------------------
 # "tiny": axes rotated by 1e-3 rad about z (a small fibre misalignment: almost, but not, the global axes)
 # "aboutx": the frame turned about its own first axis, which stays e_x
-AXES_3D = ["canonical", "inplane", "generic", "x2", "x0.5", "mixed", "swapped", "zup", "tiny", "aboutx"]
+AXES_3D = ["canonical", "inplane", "generic", "x2", "x0.5", "mixed", "swapped", "zup", "tiny", "aboutx", "x1e6", "x1e6b"]
 AXES_3D_THOROUGH = ["generic_b", "generic_c", "rot90z", "rot180z", "yz"]
-AXES_INPLANE = ["canonical", "inplane", "x2", "x0.5", "mixed", "swapped", "tiny"]
+AXES_INPLANE = ["canonical", "inplane", "x2", "x0.5", "mixed", "swapped", "tiny", "x1e6", "x1e6b"]
 AXES_INPLANE_THOROUGH = ["inplane_b", "rot90z", "rot180z"]
-NONUNIT = {"x2": (2.0, 2.0), "x0.5": (0.5, 0.5), "mixed": (2.0, 0.5)}
+# x1e6 / x1e6b: long axes (a direction given as a difference of coordinates in micrometres); the second letter reverses the second axis, so that
+# the round-off of the dot product of the perpendicular pair is positive for one of the two
+NONUNIT = {"x2": (2.0, 2.0), "x0.5": (0.5, 0.5), "mixed": (2.0, 0.5), "x1e6": (1e6, 3e5), "x1e6b": (1e6, -3e5)}
 
-PSETS = ["hom_a", "hom_b", "elem", "gauss"]
+# "elem_intPa": the moduli as per-element INTEGER arrays in Pa (1e6 x the MPa values), Poisson ratios as floats
+PSETS = ["hom_a", "hom_b", "elem", "gauss", "elem_intPa"]
 PSETS_THOROUGH = ["hom_c", "collide6", "collide3"]
-PSET_SHAPE = {"hom_a": (), "hom_b": (), "hom_c": (), "elem": (3,), "gauss": (3, 2), "collide6": (6, 6), "collide3": (3, 3)}
+PSET_SHAPE = {"hom_a": (), "hom_b": (), "hom_c": (), "elem": (3,), "gauss": (3, 2), "collide6": (6, 6), "collide3": (3, 3), "elem_intPa": (3,)}
 
 DIMMODES = ["2PS", "2PE", "3D"]
 
@@ -182,6 +185,8 @@ def eng_params(law, pset):
     out = {}
     for k, (name, val) in enumerate(base.items()):
         out[name] = _field(val, shape, name, k) if name in which else float(val)
+        if pset == "elem_intPa" and not _is_poisson(name):
+            out[name] = np.round(_field(val, shape, name, k) * 1e6).astype(np.int64)
     return out
 
 
@@ -414,8 +419,8 @@ def _law_cases(tier):
 
 PMAT_SHAPES = {"i": (), "e": (4,), "ep": (3, 2)}
 PMAT_SHAPES_THOROUGH = {"e1": (1,), "ep_dd": None, "ep_66": (6, 6)}  # ep_dd: Ne = nPg = dim
-PMAT_AXES = {3: ["canonical", "inplane", "generic", "x2", "x0.5", "mixed", "swapped", "zup", "tiny", "aboutx"],
-             2: ["canonical", "inplane", "x2", "x0.5", "mixed", "swapped", "tiny"]}
+PMAT_AXES = {3: ["canonical", "inplane", "generic", "x2", "x0.5", "mixed", "swapped", "zup", "tiny", "aboutx", "x1e6", "x1e6b"],
+             2: ["canonical", "inplane", "x2", "x0.5", "mixed", "swapped", "tiny", "x1e6", "x1e6b"]}
 
 
 def _pmat_cases(tier):
